@@ -303,8 +303,13 @@ def compute_dynamics_with_field(
             parsed_parameters_dict[parsed_parameter_name].append(
                     parsed_parameter_tuple[i])
 
-    num_steps = parsed_parameters_dict["num_steps"][0]
+    # every system has been parsed on its own: the shortest process tensor of
+    # ANY system limits the number of steps, and all must agree on dt
+    num_steps = min(parsed_parameters_dict["num_steps"])
     dt = parsed_parameters_dict["dt"][0]
+    check_true(
+        all(system_dt == dt for system_dt in parsed_parameters_dict["dt"]),
+        "All process tensors must have the same timestep length.")
     record_all = parsed_parameters_dict["record_all"][0]
     num_envs_list = [len(process_tensors) for process_tensors
                      in parsed_parameters_dict["process_tensors"]]
